@@ -1481,7 +1481,7 @@ impl<'info> Evaluator {
                         &mut visited,
                         &CallSpec {
                             loc: l.clone(),
-                            name: &u8_from_number(call_int.clone()),
+                            name: &self.opcode_name(call_int),
                             args: parts,
                             original: body.clone(),
                             tail: None,
@@ -1603,6 +1603,28 @@ impl<'info> Evaluator {
 
         let compiled = self.compile_code(allocator, false, use_body)?;
         self.run_prim(allocator, call_loc, compiled, args)
+    }
+
+    // An integer head is an opcode.  Its byte spelling serves as its name
+    // unless that spelling names a different primitive (61, %, is spelled
+    // "=" and 62, keccak256, is spelled ">"): then use the opcode's own name.
+    fn opcode_name(&self, opcode: &Number) -> Vec<u8> {
+        let spelled = u8_from_number(opcode.clone());
+        let is_opcode =
+            |p: &Rc<SExp>| matches!(p.borrow(), SExp::Integer(_, n) if n == opcode);
+        match self.prims.get(&spelled) {
+            Some(p) if !is_opcode(p) => {
+                let mut names: Vec<&Vec<u8>> = self
+                    .prims
+                    .iter()
+                    .filter(|(_, p)| is_opcode(p))
+                    .map(|(name, _)| name)
+                    .collect();
+                names.sort();
+                names.first().map(|n| (*n).clone()).unwrap_or(spelled)
+            }
+            _ => spelled,
+        }
     }
 
     fn lookup_prim(&self, l: Srcloc, name: &[u8]) -> Option<Rc<SExp>> {
